@@ -26,7 +26,7 @@ def run(patch):
         shutil.rmtree(d, ignore_errors=True)
 
 def main():
-    args = list(sys.argv[1:])
+    args = [a for a in sys.argv[1:] if a != '--resume']
     out_name = 'catch_matrix.json'
     if '--out' in args:
         i = args.index('--out')
@@ -43,7 +43,10 @@ def main():
     patches.sort()
     res_file = os.path.join(HERE, out_name)
     res = json.load(open(res_file)) if os.path.exists(res_file) else {}
-    with ThreadPoolExecutor(max_workers=4) as ex:
+    if '--resume' in sys.argv:
+        done = set(res)
+        patches = [p for p in patches if (os.path.relpath(p, VERIF) if p.startswith(VERIF) else p) not in done]
+    with ThreadPoolExecutor(max_workers=int(os.environ.get('MATRIX_WORKERS', '4'))) as ex:
         for patch, out in ex.map(run, patches):
             key = os.path.relpath(patch, VERIF) if patch.startswith(VERIF) else patch
             res[key] = out
